@@ -394,7 +394,9 @@ func runC18(r *Report, rng *rand.Rand, thorough bool) {
 	r.Rule = "server: documents with 4 security schemes (plain names and names needing sanitising) x global requirements (absent, empty, one or several alternatives) x operations that inherit, clear (empty list) or override with AND/OR combinations and scope lists, generated for 7 frameworks; the request context seen by the stub handler must hold exactly the scopes of the schemes of the effective requirements under the generated key constants. client: every provider of pkg/securityprovider on requests with pre-existing query parameters, headers and cookies and varied credentials; non-trivial = non-empty effective requirements / pre-existing request parts"
 }
 
-func urlQ(s string) string { return strings.NewReplacer(" ", "%20", "&", "%26", "=", "%3D", "@", "%40", ":", "%3A", "ü", "%C3%BC", "ï", "%C3%AF", "n", "n").Replace(s) }
+func urlQ(s string) string {
+	return strings.NewReplacer(" ", "%20", "&", "%26", "=", "%3D", "@", "%40", ":", "%3A", "ü", "%C3%BC", "ï", "%C3%AF", "n", "n").Replace(s)
+}
 
 func coqHeaders(h map[string][]string) string {
 	ks := make([]string, 0, len(h))
